@@ -356,3 +356,83 @@ func FieldsToMap(f map[string]model.Value) (map[string]interface{}, bool) {
 	}
 	return out, all
 }
+
+// CloneObject makes a deep copy of an engine object (so that two evaluators
+// never share mutable objects).
+func CloneObject(o object.Object) object.Object {
+	switch v := o.(type) {
+	case *object.Integer:
+		return &object.Integer{Value: v.Value}
+	case *object.Float:
+		return &object.Float{Value: v.Value}
+	case *object.String:
+		return &object.String{Value: v.Value}
+	case *object.Boolean:
+		return &object.Boolean{Value: v.Value}
+	case *object.Regexp:
+		return &object.Regexp{Value: v.Value}
+	case *object.Null:
+		return &object.Null{}
+	case *object.Void:
+		return &object.Void{}
+	case *object.Array:
+		els := make([]object.Object, len(v.Elements))
+		for i, e := range v.Elements {
+			els[i] = CloneObject(e)
+		}
+		return &object.Array{Elements: els}
+	case *object.Hash:
+		pairs := map[object.HashKey]object.HashPair{}
+		for k, p := range v.Pairs {
+			pairs[k] = object.HashPair{Key: CloneObject(p.Key), Value: CloneObject(p.Value)}
+		}
+		return &object.Hash{Pairs: pairs}
+	}
+	return o
+}
+
+// CopyVarsTo sets every global variable of ev (deep-copied) on the other
+// evaluator through the public SetVariable API.
+func (ev *Evaluator) CopyVarsTo(other *Evaluator) {
+	for k, v := range ev.E.VerifEnvironment().VerifGlobals() {
+		if k == "OPTIMIZE" || k == "DEBUG" {
+			continue
+		}
+		other.E.SetVariable(k, CloneObject(v))
+	}
+}
+
+// ProgramDump renders the prepared program canonically: constants, main body
+// and function bodies (sorted by name), as hex.
+func (ev *Evaluator) ProgramDump() string {
+	m := ev.E.VerifMachine()
+	var b strings.Builder
+	for i, c := range m.VerifConstants() {
+		fmt.Fprintf(&b, "const %d %s\n", i, Describe(c))
+	}
+	fmt.Fprintf(&b, "main %x\n", []byte(m.VerifBytecode()))
+	fns := m.VerifFunctions()
+	names := make([]string, 0, len(fns))
+	for k := range fns {
+		names = append(names, k)
+	}
+	sort.Strings(names)
+	for _, k := range names {
+		fmt.Fprintf(&b, "func %s(%s) %x\n", k, strings.Join(fns[k].Arguments, ","), []byte(fns[k].Bytecode))
+	}
+	return b.String()
+}
+
+// ConstDump renders the constant pool only.
+func (ev *Evaluator) ConstDump() string {
+	var b strings.Builder
+	for i, c := range ev.E.VerifMachine().VerifConstants() {
+		fmt.Fprintf(&b, "const %d %s\n", i, Describe(c))
+	}
+	return b.String()
+}
+
+// MainBytecode returns the bytecode the machine is currently pointed at.
+func (ev *Evaluator) MainBytecode() string {
+	return fmt.Sprintf("%x", []byte(ev.E.VerifMachine().VerifBytecode()))
+}
